@@ -691,6 +691,13 @@ pub mod ss {
     }
     // --- record_finished may add files and replace one build's discovered inputs; nothing the scheduler looks at
     pub open spec fn graph_ext(g0: Graph, g1: Graph) -> bool { gs::graph_ext(g0, g1) }
+    /// a report made up without running the command (`-t restat` adopting a step) must repeat, in order, the names of the
+    /// dependencies the step discovered in its last real run (C09: the remembered list is only ever replaced by a run's report)
+    pub open spec fn keeps_disc(g: Graph, id: BuildId, deps: Option<Vec<String>>) -> bool {
+        let d = gs::builds(g)[ix(id)].discovered_ins@;
+        deps is Some && deps->Some_0@.len() == d.len()
+        && forall|j: int| 0 <= j < d.len() ==> (#[trigger] deps->Some_0@[j])@ == gs::files(g)[ix(d[j])].name@
+    }
     pub proof fn lemma_graph_ext(g0: Graph, g1: Graph, bs: BuildStates)
         requires bs_inv(g0, bs), gs::wf_graph(g1), graph_ext(g0, g1)
         ensures bs_inv(g1, bs)
